@@ -342,6 +342,12 @@ func firstDiff(a, b []byte) int {
 	return n
 }
 
+// seekBody is a request body that can seek (as an *os.File or a bytes.Reader handed to a
+// hand-built request can).
+type seekBody struct{ *bytes.Reader }
+
+func (seekBody) Close() error { return nil }
+
 type onlyReader struct{ r io.Reader }
 
 func (o onlyReader) Read(p []byte) (int, error) { return o.r.Read(p) }
@@ -412,9 +418,29 @@ func TestC06_InProcess(t *testing.T) {
 			req.ContentLength = int64(len(c.body))
 			req.Header.Set("Content-Length", fmt.Sprint(len(c.body)))
 		}
+		how := "in-process"
+		// requests built by callers inside the process (not parsed off a connection) come in
+		// other shapes too; the body is still "the bytes that Read returns from here on"
+		switch rapid.IntRange(0, 7).Draw(t, "callerBuiltRequest") {
+		case 0: // a seekable body (file, bytes.Reader) whose read position is not at its start
+			pre := rapid.IntRange(1, 300).Draw(t, "preamble")
+			all := append(bytes.Repeat([]byte{'#'}, pre), c.body...)
+			rd := bytes.NewReader(all)
+			if _, err := rd.Seek(int64(pre), io.SeekStart); err != nil {
+				t.Fatal(err)
+			}
+			req.Body = seekBody{rd}
+			how = "in-process, seekable body positioned after a preamble"
+		case 1: // length left at 0 by a caller that does not know it, body present nevertheless
+			if len(c.body) > 0 && !c.chunked {
+				req.ContentLength = 0
+				req.Header.Del("Content-Length")
+				how = "in-process, body present but length declared 0"
+			}
+		}
 		rec := httptest.NewRecorder()
 		h.ServeHTTP(rec, req)
-		verdict(t, c, res, rec.Code, "in-process")
+		verdict(t, c, res, rec.Code, how)
 	})
 }
 
